@@ -409,3 +409,58 @@ Section Factory.
                 end
     end.
 End Factory.
+
+(* ---------- messages inside a larger buffer (the frame) ----------
+   Packets are encrypted / decrypted where they lie: Encrypt(buf[off:off+n]) on a read or
+   write buffer that holds other packets before and behind.  [mem] is the whole buffer; the
+   call sees the window [off, off+n) (whatever capacity the slice has beyond it); None = the
+   Go slice expression or the call panics. *)
+Definition encrypt_at (bsz : nat) (E : list N -> list N) (iv mem : list N) (off n : nat)
+  (scratch : list N) : option (list N * list N) :=
+  if length mem <? off + n then None
+  else match encrypt bsz E iv (mkst (rd off n mem) scratch) with
+       | Some s => Some (wr off (data s) mem, buf s)
+       | None => None
+       end.
+Definition decrypt_at (bsz : nat) (E : list N -> list N) (iv mem : list N) (off n : nat)
+  (scratch : list N) : option (list N * list N) :=
+  if length mem <? off + n then None
+  else match decrypt bsz E iv (mkst (rd off n mem) scratch) with
+       | Some s => Some (wr off (data s) mem, buf s)
+       | None => None
+       end.
+
+(* operations of one instance on two buffers: in place in the first one, or from a window of
+   the first into a window of the second (separate destination) *)
+Inductive bop : Type :=
+| BEnc (off n : nat) | BDec (off n : nat)
+| BEncTo (off n doff : nat) | BDecTo (off n doff : nat).
+
+Record bstate : Type := mkbs { mem1 : list N; mem2 : list N; inst_cr : cryptor }.
+
+Definition bstep (bsz : nat) (E : list N -> list N) (iv : list N) (s : bstate) (o : bop) : option bstate :=
+  let c := inst_cr s in
+  match o with
+  | BEnc off n =>
+      match encrypt_at bsz E iv (mem1 s) off n (encbuf c) with
+      | Some (m, b) => Some (mkbs m (mem2 s) (mkcr b (decbuf c)))
+      | None => None
+      end
+  | BDec off n =>
+      match decrypt_at bsz E iv (mem1 s) off n (decbuf c) with
+      | Some (m, b) => Some (mkbs m (mem2 s) (mkcr (encbuf c) b))
+      | None => None
+      end
+  | BEncTo off n doff =>
+      if (length (mem1 s) <? off + n) || (length (mem2 s) <? doff + n) then None
+      else match encrypt bsz E iv (mkst (rd off n (mem1 s)) (encbuf c)) with
+           | Some r => Some (mkbs (mem1 s) (wr doff (data r) (mem2 s)) (mkcr (buf r) (decbuf c)))
+           | None => None
+           end
+  | BDecTo off n doff =>
+      if (length (mem1 s) <? off + n) || (length (mem2 s) <? doff + n) then None
+      else match decrypt bsz E iv (mkst (rd off n (mem1 s)) (decbuf c)) with
+           | Some r => Some (mkbs (mem1 s) (wr doff (data r) (mem2 s)) (mkcr (encbuf c) (buf r)))
+           | None => None
+           end
+  end.
